@@ -235,7 +235,8 @@ Print Assumptions model_passes_C07_clause_5.
 (** [model_passes_check], PARTIAL, for [check_case_C07] itself.  [model_case univ c h0 t0 l0 steps]
     is the case the driver would print for the MODEL: its own observation after every step of ANY
     history.  Whatever the checker ([check_case_C07] = correspondence, first violating step, clause)
-    answers on it, the clause is never 1, 2, 3 or 5: every boolean entry of those clauses of
+    answers on it, there is no divergence (first component -1) and the clause is never 1, 2, 3 or 5
+    (so it is 0, 4 or 6): every boolean entry of those clauses of
     [holds_C07] is re-proved over the observation lists from the invariants.  NOT covered: clause 4
     (per-account balance movement over an end-block / call) and clause 6 (slashing iterated per
     expired request); the correspondence component is [model_corresponds_to_itself] below.  Hypotheses: no module-served service,
@@ -252,8 +253,8 @@ Theorem model_passes_clauses_C07 :
        In (TAX, q_fd q) univ /\ In (REQ, q_fd q) univ) ->
     ledger_of (obs_of univ 0 None [] (init h0 t0 l0)) = l0 ->
     forall corr p k, check_case_C07 (model_case univ c h0 t0 l0 steps) = (corr, p, k) ->
-      k <> 1 /\ k <> 2 /\ k <> 3 /\ k <> 5.
-Proof. exact model_passes_clauses_C07_lemma. Qed.
+      corr = -1 /\ k <> 1 /\ k <> 2 /\ k <> 3 /\ k <> 5.
+Proof. exact model_passes_clauses_C07_corr_lemma. Qed.
 Print Assumptions model_passes_clauses_C07.
 
 (** The correspondence component, for BOTH properties, over EVERY history with distinct hashes
